@@ -1,3 +1,4 @@
+import Firebolt.Properties.TransBase
 import Firebolt.Spec.Offsets
 import Firebolt.Generated.Source
 import Firebolt.Expected.Source
@@ -317,6 +318,57 @@ theorem source_addRecoveryRequest : GeneratedSrc.addRecoveryRequest = ExpectedSr
 
 /-! ### influence closure: the pinned functions, and every function of the repository that writes a struct field or package
 variable they read, are unchanged (digests regenerated from /repo on every run; a difference names the functions) -/
+/-! ### The code itself, translated (`Generated/Trans.lean`, rewritten from /repo on every run by extractor/translate.go)
+
+The `translated_*` theorems are about MiniGo terms the translator produced from the current Go source: for every
+environment the translated fragment does what the hand-written model function says.  They are semantic obligations —
+a rewrite that preserves the behaviour keeps them provable, a changed comparison, bound or argument does not. -/
+section Translated
+open Firebolt.MiniGo Firebolt.TransBase
+
+/-- RequestRecovery files exactly the trimmed request of the model -/
+theorem translated_requestRecovery (σ : Env) :
+    obs Trans.requestRecovery σ =
+      ⟨[("rc.tracker.AddRecoveryRequest",
+          [σ "partitionID", (trim (σ "rc.maxRecordsToRecover") (σ "fromOffset") (σ "toOffset")).1,
+            (trim (σ "rc.maxRecordsToRecover") (σ "fromOffset") (σ "toOffset")).2])], none, false⟩ := by
+  minigo_simp [Trans.requestRecovery, trim]
+  split <;> simp_all
+
+/-- the per-partition body of calculateAssignmentOffsets: same start offset and same recovery request as `startOffset` -/
+theorem translated_calcOffsetsBody (σ : Env) (herr : σ "k.consumer.QueryWatermarkOffsets#2" = 0) :
+    let so := startOffset (σ "maxInitialPartitionLagOffset") (σ "k.recoveryConsumerEnabled" != 0)
+                (some (σ "k.offsetForPartition#0")) (σ "k.consumer.QueryWatermarkOffsets#1")
+    let r := run Trans.calcOffsetsBody σ
+    r.env "tp.Offset" = so.1 ∧ r.ret = none ∧ r.stuck = false ∧
+    r.calls = [("k.offsetForPartition", [σ "tp.Partition", σ "committedOffsets"]),
+               ("k.consumer.QueryWatermarkOffsets", [σ "k.topic", σ "tp.Partition", 10000])] ++
+              (match so.2 with
+               | none => []
+               | some (f, t) => [("k.recoveryConsumer.RequestRecovery", [σ "tp.Partition", f, t])]) := by
+  by_cases h1 : σ "k.offsetForPartition#0" = -1001 <;>
+  by_cases h2 : wrap64 (σ "k.consumer.QueryWatermarkOffsets#1" - (if σ "k.offsetForPartition#0" = -1001 then 0 else σ "k.offsetForPartition#0")) > σ "maxInitialPartitionLagOffset" <;>
+  by_cases h3 : σ "maxInitialPartitionLagOffset" > σ "k.consumer.QueryWatermarkOffsets#1" <;>
+  by_cases h4 : σ "k.recoveryConsumerEnabled" = 0 <;>
+  simp [h1] at h2 <;>
+  minigo_simp [startOffset, storedOffset, offsetInvalid, Trans.calcOffsetsBody, herr, h1, h2, h3, h4] <;>
+  (try split) <;> simp_all <;> (try omega)
+
+/-- a failing watermark query aborts the walk: nothing is assigned for this partition, no request is filed -/
+theorem translated_calcOffsetsBody_error (σ : Env) (herr : σ "k.consumer.QueryWatermarkOffsets#2" ≠ 0) :
+    let r := run Trans.calcOffsetsBody σ
+    r.ret = some [0, σ "k.consumer.QueryWatermarkOffsets#2"] ∧
+    r.calls = [("k.offsetForPartition", [σ "tp.Partition", σ "committedOffsets"]),
+               ("k.consumer.QueryWatermarkOffsets", [σ "k.topic", σ "tp.Partition", 10000])] := by
+  by_cases h1 : σ "k.offsetForPartition#0" = -1001 <;> minigo_simp [Trans.calcOffsetsBody, h1, herr]
+
+/-- non-vacuity: a lagging partition with recovery enabled reaches the request branch -/
+example : (run Trans.calcOffsetsBody (fun x => if x = "k.consumer.QueryWatermarkOffsets#1" then 1000 else
+    if x = "maxInitialPartitionLagOffset" then 100 else if x = "k.recoveryConsumerEnabled" then 1 else
+    if x = "k.offsetForPartition#0" then 5 else if x = "tp.Partition" then 3 else 0)).calls.getLast? =
+    some ("k.recoveryConsumer.RequestRecovery", [3, 5, 900]) := by decide
+end Translated
+
 theorem closure_unchanged : GeneratedClo.C06 = ExpectedClo.C06 := by rfl
 
 end Firebolt.C06
